@@ -257,6 +257,49 @@ def loopReadR (step : Nat) (strict : Bool) : Sev → List Slot → List Tok → 
 
 def loopRead (strict : Bool) (es : List Slot) (ts : List Tok) : Sev × List Val := loopReadR lookAheadStep strict .null es ts
 
+/-! ### the same loop with the pre-technical-corrigendum encoding (`useTechCor == false`)
+
+Every redefining attribute has a value of its own in the parameter list, `*`.  The loop reads ONE character there; `*` →
+the delimiter is read as well and the loop goes on as after an attribute.  Anything else → `Generated.sevPreTcNoStar`; if the
+character was the delimiter itself (no value at all) the loop is aligned again, otherwise "Delimiter expected" is reported,
+`CheckRemainingInput` skips the rest of the value (`Generated.sevPreTcGarbage` if there was a rest) and leaves the delimiter
+UNREAD: the next entry of the attribute list starts at that delimiter, i.e. sees an absent value, and every later value is
+read by the entry after the one it belongs to.  A token at a redefining entry stands for: `.star` `*`; `.missing false`
+nothing; `.missing true` the one character `$`; `.lit` a value of two or more characters without `,` or `)` inside. -/
+
+def loopReadPre (step : Nat) (strict : Bool) : Sev → List Slot → List Tok → Sev × List Val
+  | acc, [], [] => (acc, [])
+  | acc, [], _ :: _ => (Sev.greater acc .inputError, [])
+  | acc, .redefining :: es, [] => (acc, unreadVals es)               -- not reachable (the loop returns at `)`)
+  | acc, .redefining :: es, t :: ts =>
+    match t with
+    | .star =>
+      (match ts with
+       | [] => (lookAheadR step acc es, unreadVals es)
+       | _ => loopReadPre step strict acc es ts)
+    | .missing false =>
+      let acc' := Sev.greater acc sevPreTcNoStar
+      (match ts with
+       | [] => (lookAheadR step acc' es, unreadVals es)
+       | _ => loopReadPre step strict acc' es ts)
+    | .missing true =>
+      let acc' := Sev.greater acc sevPreTcNoStar
+      if acc'.le preTcGiveUpAt then (acc', unreadVals es) else loopReadPre step strict acc' es (.missing false :: ts)
+    | .lit _ _ =>
+      let acc' := Sev.greater (Sev.greater acc sevPreTcNoStar) sevPreTcGarbage
+      if acc'.le preTcGiveUpAt then (acc', unreadVals es) else loopReadPre step strict acc' es (.missing false :: ts)
+  | acc, .attr _ :: es, [] => (acc, Val.null :: unreadVals es)
+  | acc, .attr a :: es, t :: ts =>
+    let (s, v) := attrRead (attrStrict strict) a t
+    let acc' := mergeAttr acc s
+    match ts with
+    | [] => (lookAheadR step acc' es, v :: unreadVals es)
+    | _ => let (s', vs) := loopReadPre step strict acc' es ts; (s', v :: vs)
+
+/-- `SDAI_Application_instance::STEPread( …, useTechCor, strict )` -/
+def loopReadTC (useTechCor strict : Bool) (es : List Slot) (ts : List Tok) : Sev × List Val :=
+  if useTechCor then loopReadR lookAheadStep strict .null es ts else loopReadPre lookAheadStep strict .null es ts
+
 /-- `strict` as received by the parts of a complex instance -/
 def partStrict (fileStrict : Bool) : Bool := match complexPartStrict with | none => fileStrict | some b => b
 
